@@ -215,6 +215,9 @@ def evaluate(case):
                     Rn = render(t)
                     if Rn != R:
                         ctx.f.append(("rejected_fmt_changes_rendering", f"t.fmt = {op[1]!r} (rejected)\n{R[0]}\n---\n{Rn[0]}"))
+            elif kind == "set_limits":
+                t.fmt.set_limits(tuple(op[1]))         # the format object's own method
+                ctx.info.add("op_set_limits_on_the_format_object")
             elif kind == "sibling":
                 # another table made from this table's format object (fmt_obj=), with other records: its reported string
                 # must reproduce *it*
@@ -268,10 +271,12 @@ def st_case(draw):
         return cols
     ops = []
     for _ in range(draw(st.integers(0, 6))):
-        k = draw(st.sampled_from(["print", "print", "setfmt", "setfmt", "setfmt_raw", "remove", "setfmt_bad", "sibling"]))
+        k = draw(st.sampled_from(["print", "print", "setfmt", "setfmt", "setfmt_raw", "remove", "setfmt_bad", "sibling", "set_limits"]))
         flag = draw(st.booleans())
         if k == "sibling":
             ops.append(["sibling", draw(st.integers(0, 3)), flag])
+        elif k == "set_limits":
+            ops.append(["set_limits", [draw(st.integers(0, 4)), draw(st.integers(0, 4))], flag])
         elif k == "print":
             ops.append(["print", draw(st.sampled_from(["whole_nc", "whole_color", "lines_nc"])), flag])
         elif k == "setfmt":
